@@ -57,6 +57,12 @@ MUTANTS = [
     ("reduce-strict-is-harmless", POLY, '(res["status"] == 0 and -res["fun"] <= b_temp[i])', '(res["status"] == 0 and -res["fun"] < b_temp[i])', [], ["C07"]),
     ("list-union-concat", LISTS, "return list1 + [el for el in list2 if (el not in list1)]", "return list1 + list2", ["C06"], []),
     ("combine-optional-floats", DATA, "    return f1 + f2\n", "    return f1\n", ["C09"], []),
+    ("combine-none-none", DATA, "            return 2.0\n", "            return None\n", ["C09"], []),
+    ("arith-chain-first-two", GRAM, "    for op, operand in zip(chain[1::2], chain[2::2]):\n        result = result + operand if op == \"+\" else result - operand", "    for op, operand in list(zip(chain[1::2], chain[2::2]))[:1]:\n        result = result + operand if op == \"+\" else result - operand", ["C09"], []),
+    ("negate-keeps-constant", DATA, "        c = -self.constant\n        fs = {}", "        c = self.constant\n        fs = {}", ["C09"], []),
+    ("geq-as-leq", SER, "        minus_a_plus_b: PolyhedralSyntaxAbsoluteTermList = a.negate().add(b)", "        minus_a_plus_b: PolyhedralSyntaxAbsoluteTermList = a.add(b.negate())", ["C09"], []),
+    ("convex-check-skipped", SER, "        _check_absolute_terms(str_rep, a_minus_b.absolute_term_list)", "        pass", ["C09"], []),
+    ("paren-factor-skips-constant", GRAM, "    pt.constant *= f\n    for k in pt.factors:", "    for k in pt.factors:", ["C09"], []),
 ]
 
 
